@@ -3,6 +3,7 @@ package gosym
 import (
 	"fmt"
 	"go/types"
+	"path/filepath"
 	"sort"
 	"strconv"
 	"strings"
@@ -149,6 +150,8 @@ func registerHost(in *Interp) {
 		in.unmodelled("strings.TrimPrefix on a symbolic string")
 		return nil
 	}
+	H["path/filepath.Dir"] = func(in *Interp, a []Value, _ ssa.CallInstruction) Value { return filepath.Dir(str(a[0])) }
+	H["path/filepath.Base"] = func(in *Interp, a []Value, _ ssa.CallInstruction) Value { return filepath.Base(str(a[0])) }
 	H["strings.TrimSpace"] = func(in *Interp, a []Value, _ ssa.CallInstruction) Value {
 		if s, ok := a[0].(string); ok {
 			return strings.TrimSpace(s)
@@ -168,12 +171,23 @@ func registerHost(in *Interp) {
 	H["sort.Strings"] = func(in *Interp, a []Value, _ ssa.CallInstruction) Value {
 		s := a[0].(Slice)
 		var ss []string
+		symbolic := false
 		for i := 0; i < s.Len; i++ {
 			x, ok := in.load(s.Arr.Kids[s.Off+i]).(string)
 			if !ok {
-				in.unmodelled("sort.Strings on symbolic strings")
+				symbolic = true
+				break
 			}
 			ss = append(ss, x)
+		}
+		in.lastSorted = &sortedRec{s: s}
+		if symbolic {
+			// equality atoms carry no order: the call is summarised as "some permutation, in place";
+			// the harness checks that what is emitted is the slice that was sorted last (vWasSorted)
+			for i := 0; i < s.Len; i++ {
+				in.lastSorted.vals = append(in.lastSorted.vals, in.load(s.Arr.Kids[s.Off+i]))
+			}
+			return nil
 		}
 		orig := append([]string(nil), ss...)
 		sort.Strings(ss)
@@ -182,8 +196,19 @@ func registerHost(in *Interp) {
 				in.store(s.Arr.Kids[s.Off+i], x)
 			}
 		}
+		for i := 0; i < s.Len; i++ {
+			in.lastSorted.vals = append(in.lastSorted.vals, in.load(s.Arr.Kids[s.Off+i]))
+		}
 		return nil
 	}
+	H["text/template.New"] = func(in *Interp, a []Value, site ssa.CallInstruction) Value {
+		pt := site.Value().Type().(*types.Pointer)
+		return Ptr{in.newCell(pt.Elem())}
+	}
+	H["(*text/template.Template).Parse"] = func(in *Interp, a []Value, site ssa.CallInstruction) Value {
+		return Tuple{a[0], Iface{}}
+	}
+	H["text/template.Must"] = func(in *Interp, a []Value, site ssa.CallInstruction) Value { return a[0] }
 	H["runtime.LockOSThread"] = func(in *Interp, a []Value, _ ssa.CallInstruction) Value {
 		in.locked++
 		return nil
